@@ -39,7 +39,7 @@ type Config struct {
 	ChunkSize   int64
 	Compression string
 	Level       int
-	Custom      int // 0 none, 1 xor codec registered as "xor1", 2 xor codec registered under the name "zstd", 3 a caller-supplied real lz4 codec registered as "lz4"
+	Custom      int // 0 none, 1 xor codec registered as "xor1", 2 xor codec registered under the name "zstd", 3 a caller-supplied real lz4 codec registered as "lz4", 4 a caller-supplied lz4 compressor emitting frames WITHOUT content checksum (what LZ4F defaults give), read back by the library's own lz4 decoder
 	AttKind     int // how attachment data is supplied: 0 bytes.Reader (has WriteTo), 1 plain reader with small reads, 2 plain reader returning its last bytes together with io.EOF
 }
 
@@ -85,6 +85,10 @@ func (c Config) Options() *mcap.WriterOptions {
 		o.Compressor = mcap.NewCustomCompressor("zstd", &XorWriter{})
 	case 3:
 		o.Compressor = mcap.NewCustomCompressor("lz4", lz4.NewWriter(nil))
+	case 4:
+		w := lz4.NewWriter(nil)
+		_ = w.Apply(lz4.ChecksumOption(false), lz4.BlockSizeOption(lz4.Block64Kb))
+		o.Compressor = mcap.NewCustomCompressor("lz4", w)
 	}
 	return o
 }
@@ -96,7 +100,7 @@ func (c Config) CompressionName() string {
 		return "xor1"
 	case 2:
 		return "zstd"
-	case 3:
+	case 3, 4:
 		return "lz4"
 	}
 	return c.Compression
